@@ -1,4 +1,4 @@
-use vlib::{core::*, eeprom_checks as ec};
+use vlib::{core::*, eeprom_checks as ec, sim_sii as ss};
 
 fn main() {
     let args = parse_args();
@@ -17,7 +17,24 @@ fn main() {
         Err(p) => Err(Fail::new(format!("harness-panic|{}", panic_site(&p)), p)),
     };
 
+    let run_dev = |c: &ss::C13DevCase, info: &mut CaseInfo| match catch(|| {
+        let mut i2 = CaseInfo::default();
+        let r = ss::run_c13_dev(c, &mut i2);
+        (r, i2)
+    }) {
+        Ok((r, i2)) => {
+            *info = i2;
+            r
+        }
+        Err(p) => {
+            let site = panic_site(&p);
+
+            if is_repo_site(&site) { Err(Fail::new(format!("C13|panic|{site}|device-init"), p)) } else { Err(Fail::new(format!("harness-panic|{site}"), p)) }
+        }
+    };
+
     install_crash_guard("C13");
+    install_hang_watchdog("C13", 180, true);
 
     if let Some(path) = &args.replay {
         if let Some(cands) = crash_candidates(path) {
@@ -36,6 +53,14 @@ fn main() {
             finish_replay("C13", path, Ok(()));
         }
 
+        if replay_kind(path) == "sii-device-init" {
+            let (_k, case): (String, ss::C13DevCase) = load_replay(path);
+            let mut info = CaseInfo::default();
+
+            hang_begin("replay", &case);
+            finish_replay("C13", path, run_dev(&case, &mut info));
+        }
+
         let (_k, case): (String, ec::C13Case) = load_replay(path);
         let mut info = CaseInfo::default();
 
@@ -52,6 +77,8 @@ fn main() {
     ];
 
     check.run_prop("h4-arbitrary-images", 16, tier.pick(1_500, 40_000), ec::c13_case, run);
+    // the same images inside a simulated device: initialisation and configuration must end
+    check.run_prop("sii-device-init", 16, tier.pick(150, 3_000), ss::c13_dev_case, run_dev);
     check.merge_profile_child("checked");
     check.finish();
 }
